@@ -107,6 +107,8 @@ type trCtx struct {
 	statePack    func() string                                  // callback: the record of the captured variables, first component of every result
 	stateVars    []*types.Var                                   // callback: the captured variables
 	nmark        int
+	nlitN        int
+	logVars      map[types.Object]*trLogVar // write-only objects of a constructor of closures (trans_funcval.go)
 	aliases      map[types.Object]*trAlias // local variables that point into a map entry (trans_alias.go)
 	inCallback   bool                                           // inside a closure that runs many times: untranslated calls are FUNCTION parameters
 	nilParamHook func(e ast.Expr, op token.Token) (string, bool) // `param == nil` for a pointer parameter read as a value
@@ -232,6 +234,9 @@ func trLeanStr(s string) string {
 
 // exprAs: an expression in a position whose type is known (gives `nil` its type)
 func (c *trCtx) exprAs(e ast.Expr, ty types.Type) string {
+	if r, ok := c.funcValAs(e, ty); ok {
+		return r
+	}
 	if trIsError(ty) {
 		if r, ok := c.errorBox(e); ok {
 			return r
@@ -346,6 +351,8 @@ func (c *trCtx) expr(e ast.Expr) string {
 		return c.indexExpr(x)
 	case *ast.SliceExpr:
 		return c.sliceExpr(x)
+	case *ast.FuncLit:
+		return c.funcLit(x)
 	case *ast.StarExpr:
 		// *p of a pointer handled as a value
 		c.leanType(c.typeOf(x.X), x.Pos())
@@ -537,6 +544,23 @@ func (c *trCtx) binary(x *ast.BinaryExpr) string {
 			other = x.Y
 		}
 		if other != nil {
+			if trSigOf(c.typeOf(other)) != nil {
+				if x.Op == token.EQL {
+					return "(Option.isNone " + c.expr(other) + ")"
+				}
+				return "(Option.isSome " + c.expr(other) + ")"
+			}
+			if sel, isSel := trUnparen(other).(*ast.SelectorExpr); isSel && trIsInterned(c.typeOf(other)) {
+				if s, ok := c.info().Selections[sel]; ok && s.Kind() == types.FieldVal {
+					// a FIELD of interned pointer type: nil is the zero value of the struct (as in a literal that omits the field); the
+					// registry never hands out a pointer to a zero-valued object
+					lt := c.leanType(c.typeOf(other), x.Pos())
+					if x.Op == token.EQL {
+						return "(decide (" + c.expr(other) + " = (GoZero.zero : " + lt + ")))"
+					}
+					return "(!decide (" + c.expr(other) + " = (GoZero.zero : " + lt + ")))"
+				}
+			}
 			if !trIsError(c.typeOf(other)) {
 				if c.nilParamHook != nil {
 					if r, ok := c.nilParamHook(other, x.Op); ok {
@@ -657,11 +681,19 @@ func (c *trCtx) composite(x *ast.CompositeLit) string {
 			return "()"
 		}
 		given := map[string]string{}
+		fieldType := func(name string) types.Type {
+			for i := 0; i < u.NumFields(); i++ {
+				if u.Field(i).Name() == name {
+					return u.Field(i).Type()
+				}
+			}
+			return nil
+		}
 		for i, el := range x.Elts {
 			if kv, ok := el.(*ast.KeyValueExpr); ok {
-				given[kv.Key.(*ast.Ident).Name] = c.elemExpr(kv.Value, nil)
+				given[kv.Key.(*ast.Ident).Name] = c.elemExpr(kv.Value, fieldType(kv.Key.(*ast.Ident).Name))
 			} else {
-				given[u.Field(i).Name()] = c.elemExpr(el, nil)
+				given[u.Field(i).Name()] = c.elemExpr(el, u.Field(i).Type())
 			}
 		}
 		var parts []string
@@ -704,6 +736,11 @@ func (c *trCtx) composite(x *ast.CompositeLit) string {
 
 // elemExpr: an element of a composite literal; `{…}` without a type takes the element type
 func (c *trCtx) elemExpr(e ast.Expr, elem types.Type) string {
+	if elem != nil {
+		if r, ok := c.funcValAs(e, elem); ok {
+			return r
+		}
+	}
 	return c.expr(e)
 }
 
@@ -773,6 +810,9 @@ func (c *trCtx) call(x *ast.CallExpr) string {
 			return r
 		}
 	}
+	if r, ok := c.funcCall(x); ok {
+		return r
+	}
 	var fobj *types.Func
 	var recv ast.Expr
 	switch f := trUnparen(x.Fun).(type) {
@@ -818,8 +858,11 @@ func (c *trCtx) call(x *ast.CallExpr) string {
 		argExprs = prim.args(c, x)
 	}
 	sigParams := fobj.Type().(*types.Signature).Params()
+	_, calleePinned := trPinned[full]
 	for i, a := range argExprs {
-		if i < sigParams.Len() && !fobj.Type().(*types.Signature).Variadic() {
+		if calleePinned {
+			args = append(args, c.expr(a)) // the prelude's helpers take plain Lean functions
+		} else if i < sigParams.Len() && !fobj.Type().(*types.Signature).Variadic() {
 			args = append(args, c.identityArg(fobj, i, a, c.exprAs(a, sigParams.At(i).Type())))
 		} else {
 			args = append(args, c.expr(a))
